@@ -201,6 +201,9 @@ pub fn wrappers() -> Vec<(Vec<Misc>, Vec<Misc>)> {
         vec![Misc::PI("target data".into())],
         vec![Misc::PI("xml-stylesheet type=\"text/xsl\" href=\"s.xsl\"".into()), Misc::Text("\n".into())],
         vec![Misc::DocType("r".into())],
+        // processing instructions whose data is not pseudo-attribute syntax
+        vec![Misc::PI("xml-stylesheet href=style.css title".into()), Misc::PI("xml-model a=\"1\" a=\"2\"".into())],
+        vec![Misc::PI("xml-review checked by \"QA".into()), Misc::Text("\n".into())],
         vec![Misc::Text("\n  ".into())],
         vec![Misc::Decl("xml version=\"1.0\" encoding=\"ISO-8859-1\" standalone=\"yes\"".into())],
     ];
@@ -214,7 +217,7 @@ pub fn wrappers() -> Vec<(Vec<Misc>, Vec<Misc>)> {
     out
 }
 
-const ATTR_VALUES: &[&str] = &["v", "a b", "&amp;", "it's", "é√", "&#60;x"];
+const ATTR_VALUES: &[&str] = &["v", "a b", "&amp;", "it's", "é√", "&#60;x", "", "default", " "];
 const TEXT_VALUES: &[&str] = &["t", "&lt;x", "  padded  ", "é√", "1", "]]"];
 
 pub fn run(ctx: &Ctx) {
@@ -257,6 +260,30 @@ pub fn run(ctx: &Ctx) {
     if !res.complete {
         ctx.set("exhaustive", json!(false));
     }
+    }
+    // 5d. attribute names the XML specifications give a meaning to, with the values those specifications
+    // name, around white-space-only character data: the value must still not matter
+    {
+        let names = ["xml:space", "xml:lang", "xml:id", "xmlns", "xmlns:p", "space", "id"];
+        let values = ["default", "preserve", "", "en", "http://x/y", " "];
+        let templates = [
+            "<r N=\"V\"> <a> </a></r>",
+            "<r><a N=\"V\"> </a><a N=\"V\"><b> </b></a></r>",
+            "<r N=\"V\"><a>t</a><a> </a><c N=\"V\"/><c N=\"V\"> </c></r>",
+            "<r><a N=\"V\"><b>\n  </b></a><a><b>t</b></a></r>",
+        ];
+        let mut n_special = 0u64;
+        for (ti, t) in templates.iter().enumerate() {
+            for (ni, n) in names.iter().enumerate() {
+                let base = t.replace('N', n).replace('V', "v");
+                for (vi, v) in values.iter().enumerate() {
+                    let other = t.replace('N', n).replace('V', v);
+                    n_special += cmp.same("values", &[base.clone()], &[other], ((ti * 100 + ni * 10 + vi) as u64) | (3 << 40), json!(null));
+                }
+            }
+        }
+        evals += n_special;
+        ctx.set("special_attribute_documents", json!({"templates": templates.len(), "names": names, "values": values, "comparisons": n_special}));
     }
     // 2.-5. wrappers, values, reader configuration and buffer capacities on a smaller space
     let sp3 = Space::new(full_cfg(ctx.tier.pick(3, 4)));
